@@ -111,6 +111,7 @@ pub fn run(env: &Env) -> Report {
             {
                 let mut c = match Sess::new(&mut t, &env.data, "w", PHONETIC, opts, &xdg) { Some(mut s) => { s.follow_sel = false; s } None => continue };
                 let nwarm = 1 + rng.below(if env.quick() { 6 } else { 30 });
+                let mut learned_in_warmup = false;
                 for _ in 0..nwarm {
                     let other = match rng.below(5) {
                         0 => target.chars().take(1 + rng.below(target.chars().count())).collect::<String>(),
@@ -120,10 +121,25 @@ pub fn run(env: &Env) -> Report {
                     };
                     let other: String = other.chars().filter(|c| crate::code_ok(*c)).take(20).collect();
                     if other.is_empty() { continue; }
-                    let o = c.type_text(&mut t, &other);
-                    match &o { Obs::Full { sel, cands, .. } if *sel < cands.len() => { c.commit(&mut t, *sel); } _ => { c.finish(&mut t); } }
+                    // the earlier words end in every way a word can end: commit of the index on display (no learning), finish,
+                    // ctrl-backspace, backspaces down to empty — and now and then a punctuation-only emoticon committed at index 0 / 1
+                    // (one of them is not the engine's own choice, so something is learned under the EMPTY word part)
+                    match rng.below(9) {
+                        0 => { c.type_text(&mut t, &other); c.finish(&mut t); }
+                        1 => { c.type_text(&mut t, &other); c.backspace(&mut t, true); }
+                        2 => { c.type_text(&mut t, &other); for _ in 0..(other.chars().count() + 2) { if !c.imp.ongoing() { break; } c.backspace(&mut t, false); } if c.imp.ongoing() { c.finish(&mut t); } }
+                        3 if opts.phonetic_suggestion && !opts.ansi => { prelude(&mut c, &mut t, 5 + rng.below(2), &[]); learned_in_warmup = true; }
+                        _ => {
+                            let o = c.type_text(&mut t, &other);
+                            match &o { Obs::Full { sel, cands, .. } if *sel < cands.len() => { c.commit(&mut t, *sel); } _ => { c.finish(&mut t); } }
+                        }
+                    }
                 }
                 let rc = if rng.chance(50) { type_direct(&mut c, &mut t, &target) } else { type_edited(&mut c, &mut t, &mut rng, &target) };
+                // the store is held fixed by the property: when the warm-up learned something, the reference is a brand-new context
+                // created NOW over the same user directory
+                let ra2 = if learned_in_warmup { match Sess::new(&mut t, &env.data, "a2", PHONETIC, opts, &xdg) { Some(mut f) => { f.follow_sel = false; let r = type_direct(&mut f, &mut t, &target); t.line("drop a2"); r } None => ra.clone() } } else { ra.clone() };
+                let ra = ra2;
                 if !same(&ra, &rc) { rep.violation("C05", "warm-context-differs", format!("target {:?} opts {}: fresh {:?} vs warm {:?}", target, opts.bits_str(), render_obs(&ra, true), render_obs(&rc, true)), ctx("warm", &c.events)); }
                 rep.count("warm-context");
                 // (d) interleaved with a second live context typing related text
